@@ -184,6 +184,10 @@ func newHost(cpuMap types.CPUMap, shareBase int, maxFragmentCores int) *host {
 
 func (h *host) getCPUPlans(cpuRequest float64) []types.CPUMap {
 	piecesRequest := int(math.Round(cpuRequest * float64(h.shareBase)))
+	if piecesRequest <= 0 {
+		// a request below one piece cannot be planned (full == 0 && fragment == 0 would loop forever)
+		return []types.CPUMap{}
+	}
 	full := piecesRequest / h.shareBase
 	fragment := piecesRequest % h.shareBase
 
